@@ -31,7 +31,10 @@ def classify(r):
 
 
 TECHNIQUE = "Lean 4 invariant proof at the decision label of the Session transition system (all interleavings) + trace acceptance and decision oracle on real headless sessions with forced race windows"
+EXTRA_PROPS = ["SessionFG"]   # fg_decision_complete / fg_no_partial: the same statements at READ granularity
 LEVEL_TEXT = ("c14_decision_complete: in every history, any step that takes the select-1/exit-0 decision does so in a state where the source has ended, every item was matched and "
               "every result harvested, and the outcome is accept iff select-1 and exactly one match, abort iff exit-0 and none, interactive otherwise; c14_no_partial states the three "
-              "forbidden windows directly; c14_never_later: once interactive, never again; c14_prefix_counterexample exhibits the pre-fix race. Tie: forced-schedule sessions on the real Model.")
-LEVEL_NOTE = ("Same model and trusted base as C01 (atomic handlers with stale-false reads; hooks; linearisation in vlib/props/session.py). `--sync` shares the code path and is exercised only through select-1/exit-0.")
+              "forbidden windows directly; c14_never_later: once interactive, never again; c14_prefix_counterexample exhibits the pre-fix race. fg_decision_complete / fg_no_partial: the same for the "
+              "fine-grained system in which handle_select1_or_exit0's two reads and its action are separate steps with arbitrary steps of the other threads in between (the positive reads are "
+              "still true when it acts: monotone flags). Tie: forced-schedule sessions on the real Model.")
+LEVEL_NOTE = ("Same models and trusted base as C01 (safety at read granularity, Model/SessionFG.lean; trace replay on the coarse system with atomic handlers and stale-false reads; hooks; linearisation in vlib/props/session.py). `--sync` shares the code path and is exercised only through select-1/exit-0.")
